@@ -739,3 +739,62 @@ Proof.
   - unfold fitted. intro H. apply (f_equal st_lpv) in H. vm_compute in H. discriminate H.
   - split; vm_compute; reflexivity.
 Qed.
+
+(* ---- boolean validity (used for concrete examples) ------------------------------------------------ *)
+Definition valid_edit_b (st : state) (m : umode) (d k : val) : bool :=
+  let g := st_order st in
+  let d' := eff_d st d in
+  negb (is_nan k) &&
+  match m with
+  | MGroup => mem k (keys g) && (mem d' (keys g) || negb (mem d' (values g)))
+  | MReplace => mem d' (keys g) && (negb (mem k (values g)) || mem k (get g d'))
+  | MBad => false
+  end.
+
+Lemma valid_edit_b_sound : forall st m d k, valid_edit_b st m d k = true -> valid_edit st m d k.
+Proof.
+  intros st m d k H. unfold valid_edit_b in H. cbv zeta in H.
+  apply andb_true_iff in H. destruct H as [Hk H].
+  split; [intro; subst k; discriminate Hk|].
+  destruct m; [| |discriminate H]; apply andb_true_iff in H; destruct H as [H1 H2];
+    apply mem_In in H1; (split; [exact H1|]); apply orb_true_iff in H2; destruct H2 as [H2|H2].
+  - left. apply mem_In. exact H2.
+  - right. apply mem_false. apply negb_true_iff. exact H2.
+  - left. apply mem_false. apply negb_true_iff. exact H2.
+  - right. apply mem_In. exact H2.
+Qed.
+
+Fixpoint valid_history_b (tables : list fmt_table) (st : state) (es : list edit) : bool :=
+  match es with
+  | [] => true
+  | e :: t => valid_edit_b st (e_mode e) (e_d e) (e_k e) &&
+              valid_history_b tables (fst (update tables st (e_mode e) (e_d e) (e_k e))) t
+  end.
+
+Lemma valid_history_b_sound : forall tables es st,
+  valid_history_b tables st es = true -> valid_history tables st es.
+Proof.
+  intros tables es. induction es as [|e t IH]; intros st H; [exact I|].
+  cbn [valid_history_b] in H. apply andb_true_iff in H. destruct H as [H1 H2].
+  split; [apply valid_edit_b_sound; exact H1 | apply IH; exact H2].
+Qed.
+
+(* ---- non-vacuity --------------------------------------------------------------------------------- *)
+Example nonvacuous_example :
+  let st := fitted_state_auto Qual (of_list [VStr "a"; VStr "b"; VStr "c"; VStr "__NAN__"])
+              (VStr "__NAN__") (VStr "__OTHER__") false OStr [] in
+  let es := [mkEdit MGroup (VStr "a") (VStr "b"); mkEdit MGroup VNaN (VStr "c");
+             mkEdit MGroup (VStr "zz") (VStr "c"); mkEdit MReplace (VStr "b") (VStr "a");
+             mkEdit MReplace (VStr "c") (VStr "C")] in
+  WF (st_order st) /\ st_nan st <> VNaN /\ fitted [] st /\ valid_history [] st es /\
+  map snd (run_edits [] st es) = [UDone; UDone; UDone; UDone; UDone] /\
+  abs (st_order (final_state [] st es))
+    = [(VStr "a", [VStr "a"; VStr "b"]); (VStr "C", [VStr "C"; VStr "zz"; VStr "__NAN__"; VStr "c"])] /\
+  transform_cell (final_state [] st es) VNaN = Ok (OLab (LVal (VStr "C"))).
+Proof.
+  cbv zeta. split; [apply wf_b_spec; vm_compute; reflexivity|].
+  split; [discriminate|]. split; [reflexivity|].
+  split.
+  { apply valid_history_b_sound. vm_compute. reflexivity. }
+  split; [vm_compute; reflexivity|]. split; vm_compute; reflexivity.
+Qed.
